@@ -918,5 +918,6 @@ func checkC17(w *World, r *Run) {
 		})
 		r.Check(good && cnt > 0, ruleQuorum, "a shard is read only if its header parses and matches the store's geometry and position", of.Pos(), "parse ok ∧ data/total/stripe equal the configuration ∧ idx == i", "a shard with a foreign or damaged header is read as if it belonged to this part at this position")
 	}
+	checkTruncatingCreate(w, r)
 	r.NotCovered("Reed-Solomon arithmetic; stale shards whose frames are internally consistent (an older write of the same part id); healing writes; every combination of faults — the rules decide that nothing unauthenticated is fed to the reconstruction and that the quorum test guards it")
 }
